@@ -181,6 +181,9 @@ class _Gen:
         return {"kind": "schema", "ref": name}
 
     def new_type(self):
+        done = sorted(n for n, v in self.types.items() if v is not None)
+        if self.ntypes >= 8 and done:
+            return self.rng.choice(done)       # bound the size of a descriptor
         self.ntypes += 1
         name = "T%d" % self.ntypes
         self.types[name] = None
@@ -304,6 +307,7 @@ class Built:
         self.fault = None     # {"nth": n, "exc": name} armed for the current operation
         self.fault_fired = 0
         self.fields = {}      # id path -> real field object
+        self.ensure = lambda name: None
 
 
 def _callback_fault(B):
@@ -407,8 +411,10 @@ def make_field(B, sd, node, tag):
         if item is None:
             f = cc.ListField(**kw)
         elif item["kind"] == "configtype":
+            B.ensure(item["type"])
             f = cc.ListField(B.types[item["type"]], **kw)
         elif item["kind"] == "schema":
+            B.ensure(item["ref"])
             f = cc.ListField(B.shared[item["ref"]], **kw)
         else:
             f = cc.ListField(make_field(B, sd, item, tag + "[]"), **kw)
@@ -450,6 +456,7 @@ def _populate(B, sd, schema, node, prefix):
             _populate(B, sd, sub, f, tag + ".")
             B.fields[tag] = sub
         elif f["kind"] == "configtype":
+            B.ensure(f["type"])
             schema._add_field(f["key"], B.types[f["type"]])
             B.fields[tag] = schema._fields[f["key"]]
         else:
@@ -461,26 +468,28 @@ def _populate(B, sd, schema, node, prefix):
 def build(sd):
     """Build fresh real schema objects (one 'process') from a descriptor."""
     B = Built()
-    # shared item schemas and config types first (they may reference each other in creation order)
-    names = sorted(set(sd.get("shared", {})) | set(sd.get("types", {})), key=lambda n: (int(n[1:]), n[0]))
-    pending = list(names)
-    guard = 0
-    while pending and guard < 100:
-        guard += 1
-        name = pending.pop(0)
-        node = sd["shared"][name] if name.startswith("S") else sd["types"][name]["schema"]
-        try:
-            sch = Schema(dynamic=node.get("dynamic", False), env=node.get("env"))
-            _populate(B, sd, sch, node, name + "#")
-        except KeyError:
-            pending.append(name)   # depends on a type not built yet
-            continue
-        if name.startswith("S"):
+    # shared item schemas and config types are built on demand (depth first); descriptors are acyclic by
+    # construction: a type or shared schema only refers to ones completed before it was started
+    building = set()
+
+    def ensure(name):
+        if name in B.types or name in B.shared:
+            return
+        if name in building:
+            raise RuntimeError("cyclic type reference through %r" % name)
+        building.add(name)
+        node = sd["shared"][name] if name in sd.get("shared", {}) else sd["types"][name]["schema"]
+        sch = Schema(dynamic=node.get("dynamic", False), env=node.get("env"))
+        _populate(B, sd, sch, node, name + "#")
+        if name in sd.get("shared", {}):
             B.shared[name] = sch
         else:
             B.types[name] = cc.make_type(sch, name, module="simtypes", key_filename=sd["types"][name].get("key_filename"))
-    if pending:
-        raise RuntimeError("cyclic type references: %r" % pending)
+        building.discard(name)
+
+    B.ensure = ensure
+    for name in sorted(set(sd.get("shared", {})) | set(sd.get("types", {})), key=lambda n: (int(n[1:]), n[0])):
+        ensure(name)
     root = sd["root"]
     B.root = Schema(dynamic=root.get("dynamic", False), env=root.get("env"))
     _populate(B, sd, B.root, root, "")
